@@ -40,6 +40,42 @@ def _str_fields(fn) -> Optional[List[tuple]]:
     return None
 
 
+def _captures_map(e) -> Optional[bool]:
+    """is `e` the regex match's groupdict with at most the KEYS lower-cased?  True / False (a value is converted or
+    altered) / None (shape not recognised)"""
+    if isinstance(e, ast.Call) and isinstance(e.func, ast.Attribute) and e.func.attr == "groupdict" and not e.args:
+        return True
+    key = val = gen = None
+    if isinstance(e, ast.DictComp) and len(e.generators) == 1:
+        key, val, gen = e.key, e.value, e.generators[0]
+    elif isinstance(e, ast.Call) and isinstance(e.func, ast.Name) and e.func.id == "dict" and len(e.args) == 1 and not e.keywords and isinstance(e.args[0], (ast.GeneratorExp, ast.ListComp)) and len(e.args[0].generators) == 1 and isinstance(e.args[0].elt, ast.Tuple) and len(e.args[0].elt.elts) == 2:
+        key, val = e.args[0].elt.elts
+        gen = e.args[0].generators[0]
+    if gen is None or gen.ifs:
+        return None
+    it = gen.iter
+    src = None
+    kname = vname = None
+    if isinstance(it, ast.Call) and isinstance(it.func, ast.Attribute) and it.func.attr == "items" and isinstance(gen.target, ast.Tuple) and len(gen.target.elts) == 2 and all(isinstance(t, ast.Name) for t in gen.target.elts):
+        src, kname, vname = it.func.value, gen.target.elts[0].id, gen.target.elts[1].id
+    elif isinstance(gen.target, ast.Name):
+        src = it.func.value if isinstance(it, ast.Call) and isinstance(it.func, ast.Attribute) and it.func.attr == "keys" else it
+        kname = gen.target.id
+    if src is None or not text(src).endswith(".groupdict()"):
+        return None
+    key_ok = (isinstance(key, ast.Name) and key.id == kname) or (isinstance(key, ast.Call) and isinstance(key.func, ast.Attribute) and key.func.attr == "lower" and isinstance(key.func.value, ast.Name) and key.func.value.id == kname and not key.args)
+    if vname is not None:
+        val_ok = isinstance(val, ast.Name) and val.id == vname
+    else:
+        val_ok = (isinstance(val, ast.Subscript) and text(val.value) == text(src) and isinstance(val.slice, ast.Name) and val.slice.id == kname) or (isinstance(val, ast.Call) and isinstance(val.func, ast.Attribute) and val.func.attr == "get" and text(val.func.value) == text(src) and len(val.args) == 1 and text(val.args[0]) == kname)
+    if not key_ok:
+        return None
+    if val_ok:
+        return True
+    # the value component is something else: a conversion / edit of the captured string
+    return False
+
+
 def b_rules(p: Project, rep: Report):
     schema = Schema(p)
     rep.rule("B-R1", "for both header classes the fields written by __str__, the named groups of the parsing regex and the constructor parameters agree (same set; same order for writer and regex); each written value is the attribute of the same name")
@@ -205,21 +241,21 @@ def b_rules(p: Project, rep: Report):
         _pp = _PT0.enumerate_paths(pfn, expander=ex)
         _cn = [x for x in _pp.cfg.nodes if any(text(cc) == text(c) for cc in x.calls())]
         vals_ = []
+        vasts_ = []
         for _pth in _pp:
             for x in _cn:
                 if x.id in _pth.marks:
-                    vals_.append(text(_PT0.value_on_path(_pth, _pp.cfg, star, upto=_pth.nodes.index(x.id))))
-        vals_ = sorted(set(vals_))
-        import re as _re
-
-        def passes(v):
-            # {<k>.lower(): <v> for <k>, <v> in <match>.groupdict().items()}  - keys lower-cased, values untouched
-            m_ = _re.fullmatch(r"\{(\w+)\.lower\(\): (\w+) for \(?(\w+), (\w+)\)? in (.+)\.items\(\)\}", v)
-            return bool(m_) and m_.group(1) == m_.group(3) and m_.group(2) == m_.group(4) and m_.group(5).endswith(".groupdict()")
-
-        ok = bool(vals_) and all(passes(v) or v.endswith(".groupdict()") for v in vals_)
-        # follow one more level: headerattrs = headermatch.groupdict()
-        rep.check("B-R5", "parse:passes-captures-unmodified", ok, f"the constructor receives {vals_}: captured header strings are converted or altered before validation (e.g. int('0') is falsy and would be replaced by the default)" if not ok else "", hloc(p, c))
+                    _v = _PT0.value_on_path(_pth, _pp.cfg, star, upto=_pth.nodes.index(x.id))
+                    if text(_v) not in vals_:
+                        vals_.append(text(_v))
+                        vasts_.append(_v)
+        verdicts_ = [_captures_map(v) for v in vasts_]
+        if vasts_ and all(v is True for v in verdicts_):
+            rep.check("B-R5", "parse:passes-captures-unmodified", True, "", hloc(p, c))
+        elif any(v is False for v in verdicts_):
+            rep.check("B-R5", "parse:passes-captures-unmodified", False, f"the constructor receives {sorted(vals_)}: captured header strings are converted or altered before validation (e.g. int('0') is falsy and would be replaced by the default)", hloc(p, c))
+        else:
+            rep.note(f"B-R5 undecided: the constructor's keyword mapping is built as {sorted(vals_)[0][:80] if vals_ else None}")
     from .dataflow import writes_in
 
     starnames = {text(k.value) for n in ctor for c in n.calls() for k in c.keywords if k.arg is None and isinstance(k.value, ast.Name)}
@@ -334,6 +370,8 @@ SINGLE_BYTE = {"ascii", "latin_1", "latin-1", "latin1", "iso-8859-1", "iso8859-1
 
 def h_r1(p: Project, rep: Report):
     rep.rule("H-R1", "v1 (helpers inlined, names by role): the source is repositioned to <position before the first header line> + <match end of OFXHeaderV1.parse(R)>, where R is exactly the concatenation of what was read from the source since that position, each chunk decoded with a single-byte codec: nothing inserted, stripped or skipped; the body is the rest of the stream decoded with header.codec, only surrounding whitespace stripped")
+    global _FOLD_P
+    _FOLD_P = p
     fn0 = p.get_function(HEADER, "parse_header").node
     fn = _flat2(p, HEADER, fn0)
     src = params_of(fn0)[0]
@@ -581,6 +619,7 @@ def h_rules(p: Project, rep: Report):
         rep.run(f, p, rep)
 
 
+_FOLD_P = None  # the project whose module constants decode_info may fold (set by h_r1)
 LATIN1 = {"latin_1", "latin-1", "latin1", "iso-8859-1", "iso8859-1", "iso8859_1", "l1", "8859"}
 ONE_FOR_ONE_ERRORS = {"strict", "replace", "surrogateescape"}  # handlers that never change the number of characters
 
@@ -595,13 +634,16 @@ def decode_info(e, src: str):
         return None
     codec = e.args[0] if e.args else next((k.value for k in e.keywords if k.arg == "encoding"), None)
     errors = e.args[1] if len(e.args) > 1 else next((k.value for k in e.keywords if k.arg == "errors"), None)
-    if not (isinstance(codec, ast.Constant) and isinstance(codec.value, str)):
+    if codec is None or len(e.args) > 2 or any(k.arg not in ("encoding", "errors") for k in e.keywords):
         return None
-    if errors is not None and not (isinstance(errors, ast.Constant) and isinstance(errors.value, str)):
+    from .fold import fold
+
+    # literal, or a module-level string constant
+    cv = fold(codec, {}, _FOLD_P, HEADER if _FOLD_P is not None else None)
+    ev_ = fold(errors, {}, _FOLD_P, HEADER if _FOLD_P is not None else None) if errors is not None else "strict"
+    if not isinstance(cv, str) or not isinstance(ev_, str):
         return None
-    if len(e.args) > 2 or any(k.arg not in ("encoding", "errors") for k in e.keywords):
-        return None
-    return recv.func.attr, codec.value.lower(), (errors.value if errors is not None else "strict")
+    return recv.func.attr, cv.lower(), ev_
 
 
 def _is_chunk(v: str, src: str) -> bool:
